@@ -108,6 +108,8 @@ structure Cfg where
   cache : Bool
   topicKey : Bool
   queue : List Obj
+  /-- ghost: every object ever handed to the loop, in order (no step reads it) -/
+  enq : List Obj
   -- loop thread
   subs : List Conn
   pending : Conn → Option Obj
@@ -198,7 +200,7 @@ def stepWorker (s : Cfg) : Cfg × Label :=
   | .wTopic d =>
     if s.topicKey then ({ s with wpc := .wEnq d }, .rd .topicKey)
     else ({ s with wpc := .idle }, .rd .topicKey)
-  | .wEnq d => ({ s with queue := s.queue ++ [d], wpc := .idle }, .wr .queue)
+  | .wEnq d => ({ s with queue := s.queue ++ [d], enq := s.enq ++ [d], wpc := .idle }, .wr .queue)
 
 /-- The scheduler picks the loop thread (`true`) or the worker (`false`). -/
 def step (fix : Bool) (b : Bool) (s : Cfg) : Cfg :=
@@ -238,9 +240,18 @@ def lastValid (v : Obj) : List Update → Obj
   | [] => v
   | u :: us => lastValid (if u.valid then u.obj else v) us
 
+/-- The hand-offs the worker owes the loop: one per accepted update whose payload differs from the
+    value it replaces (`changed`, l.354), in order. -/
+def changes (v : Obj) : List Update → List Obj
+  | [] => []
+  | u :: us =>
+    if u.valid then
+      (if v.val ≠ u.obj.val then [u.obj] else []) ++ changes u.obj us
+    else changes v us
+
 /-- A start configuration: both threads idle, caches empty. -/
 def init (v : Obj) (lops : List LoopOp) (wups : List Update) (subs : List Conn) : Cfg :=
-  { value := v, cacheV := none, cache := false, topicKey := !subs.isEmpty, queue := [],
+  { value := v, cacheV := none, cache := false, topicKey := !subs.isEmpty, queue := [], enq := [],
     subs := subs, pending := fun _ => none, delivered := fun _ => [], results := [],
     lpc := .idle, lops := lops, wpc := .idle, wups := wups }
 
